@@ -1,6 +1,8 @@
 package bounds
 
 import (
+	"os"
+	"go/token"
 	"fmt"
 	"go/types"
 	"strings"
@@ -178,6 +180,57 @@ func (it *interp) execCall(s *state, f frameID, fn *ssa.Function, x *ssa.Call) *
 			}
 			if it.lemmas[name] == "leb128len" && len(cc.Args) == 1 && kindOf(x.Type()) == kSlice {
 				return it.leb128LenLemma(s, f, x)
+			}
+			if kindOf(x.Type()) == kInt && it.writesNoMemory(callee, 0) {
+				// a function of its arguments and of memory it only reads: a repeated call with the same
+				// arguments and unchanged memory returns what the first call returned
+				argReps := func(d *disjunct) []rep {
+					var rs []rep
+					for _, a := range cc.Args {
+						rs = append(rs, it.repOf(d, f, a))
+					}
+					return rs
+				}
+				hit, miss := &state{}, &state{}
+				for _, d := range s.ds {
+					ars := argReps(d)
+					found := false
+					for _, me := range d.memo {
+						if me.callee != callee || len(me.args) != len(ars) {
+							continue
+						}
+						same := true
+						for i := range ars {
+							if !repEqual(ars[i], me.args[i]) {
+								same = false
+							}
+						}
+						if same {
+							d.vals[valKey{f, x}] = me.res
+							found = true
+							break
+						}
+					}
+					if os.Getenv("RTPCHECK_MEMODBG") != "" {
+						fmt.Printf("MEMO %s at %s: found=%v memo=%d record=%v\n", callee.Name(), x.Name(), found, len(d.memo), it.record)
+					}
+					if found {
+						hit.ds = append(hit.ds, d)
+					} else {
+						miss.ds = append(miss.ds, d)
+					}
+				}
+				if len(miss.ds) == 0 {
+					return hit
+				}
+				out := it.inline(miss, f, fn, x, callee, nil)
+				for _, d := range out.ds {
+					if r, ok := d.vals[valKey{f, x}]; ok && r.kind == kInt && r.lin != nil {
+						d.memo = append(d.memo[:len(d.memo):len(d.memo)], memoEnt{callee: callee, args: argReps(d), res: r, loads: it.loadTypes(callee, 0)})
+					}
+				}
+				out.ds = append(out.ds, hit.ds...)
+				return out
 			}
 			return it.inline(s, f, fn, x, callee, nil)
 		}
@@ -503,4 +556,27 @@ func (it *interp) writesNoMemory(fn *ssa.Function, depth int) bool {
 		}
 	}
 	return true
+}
+
+// loadTypes: the types of the values fn (and the module functions it calls) loads from memory.
+func (it *interp) loadTypes(fn *ssa.Function, depth int) []types.Type {
+	var out []types.Type
+	if depth > 4 {
+		return out
+	}
+	for _, b := range fn.Blocks {
+		for _, in := range b.Instrs {
+			switch x := in.(type) {
+			case *ssa.UnOp:
+				if x.Op == token.MUL {
+					out = append(out, x.Type())
+				}
+			case *ssa.Call:
+				if cal := x.Call.StaticCallee(); cal != nil && core.InModule(cal) {
+					out = append(out, it.loadTypes(cal, depth+1)...)
+				}
+			}
+		}
+	}
+	return out
 }
